@@ -1,2 +1,177 @@
-(** C03 — statements are added once the proofs exist (work in progress). *)
-From Verif Require Import Lib.Base Version.Parse Version.Compare Version.Dpkg Version.ParseSpec.
+(** C03 — Version comparison agrees with dpkg and is a consistent total preorder.
+    Only statements; every proof is [exact <lemma>].
+
+    Model:  Version/Compare.v on top of Version/Parse.v ([py_compare], [py_ops],
+            [py_version_compare], [py_hash_key] — the functions [agree] runs).
+    Spec:   Version/Dpkg.v ([dpkg_compare]: dpkg's parseversion + verrevcmp) and the
+            validity predicate [valid_spec] of Version/ParseSpec.v — what [holds] uses.
+    Proofs: Version/CompareLex.v (padded lexicographic orders), CompareKey.v (the
+            Python chunk loop computes the order [keys_cmp] on the key [pkey], for every
+            string), CompareDpkg.v (so does dpkg's character loop, without running out
+            of fuel), CompareHash.v (the tuple of [_hash_key] is the trimmed key),
+            CompareProofs.v (assembly; uses C14's [inv] and parse theorems).
+
+    [inv v = true] (Version/ParseProofs.v) is the invariant of a live Version object:
+    its components are the grammar's decomposition of its full string.  Every object
+    made by [Version(s)] has it and every [setattr] keeps it (C14), so the theorems
+    stated for [inv] objects cover objects modified through their attributes too. *)
+From Coq Require Import String.
+From Verif Require Import Lib.Base Lib.Dec Version.Parse Version.ParseSpec Version.ParseProofs
+  Version.Compare Version.Dpkg Version.CompareCheck Version.CompareProofs.
+Local Open Scope Z_scope.
+
+(** 1. py_compare_is_dpkg.  For all valid version strings a and b: both objects are
+       created, the comparison does not raise, and [_compare], [version_compare] and
+       the six operators all give dpkg's verdict (-1, 0 or 1) on the two strings. *)
+Theorem C03_py_compare_is_dpkg :
+  forall a b, valid_spec a = true -> valid_spec b = true ->
+  exists va vb z,
+    version_new (VStr a) = Ok va /\ version_new (VStr b) = Ok vb
+    /\ py_compare va vb = Ok z /\ py_version_compare a b = Ok z
+    /\ py_ops va vb = Ok (ops_of z)
+    /\ dpkg_compare a b = Some z.
+Proof. exact py_compare_is_dpkg. Qed.
+
+(** the same for any two live objects, however they were reached *)
+Theorem C03_py_compare_is_dpkg_obj :
+  forall va vb, inv va = true -> inv vb = true ->
+  exists z, py_compare va vb = Ok z /\ dpkg_compare (st_full va) (st_full vb) = Some z.
+Proof. exact py_compare_is_dpkg_obj. Qed.
+
+(** 2. The order laws.  They hold for ANY two/three objects on which the comparison
+       does not raise (equivalently: whose epochs are integers, [epoch_int]) — valid
+       or not, so in particular for all live objects ([C03_live_epoch_int]). *)
+Theorem C03_compare_total :
+  forall a b, epoch_int a = true -> epoch_int b = true ->
+  exists z, py_compare a b = Ok z /\ (z = -1 \/ z = 0 \/ z = 1).
+Proof. exact compare_total. Qed.
+
+Theorem C03_live_epoch_int : forall v, inv v = true -> epoch_int v = true.
+Proof. exact inv_epoch_int. Qed.
+
+Theorem C03_compare_refl : forall a, epoch_int a = true -> py_compare a a = Ok 0.
+Proof. exact compare_refl. Qed.
+
+(** compare(b, a) = -compare(a, b) *)
+Theorem C03_compare_antisym :
+  forall a b z, py_compare a b = Ok z -> py_compare b a = Ok (- z).
+Proof. exact compare_antisym. Qed.
+
+(** [<=] and [>=] are transitive, strictness is inherited; [trans_ok] is the boolean
+    form evaluated by [holds] on the implementation's answers *)
+Theorem C03_compare_trans :
+  forall a b c x y, py_compare a b = Ok x -> py_compare b c = Ok y ->
+  exists z, py_compare a c = Ok z
+    /\ (x <= 0 -> y <= 0 -> z <= 0) /\ (x <= 0 -> y <= 0 -> x < 0 \/ y < 0 -> z < 0)
+    /\ (0 <= x -> 0 <= y -> 0 <= z) /\ (0 <= x -> 0 <= y -> 0 < x \/ 0 < y -> 0 < z)
+    /\ trans_ok x y z = true.
+Proof. exact compare_trans. Qed.
+
+(** equal versions are interchangeable: comparison is a congruence for [== 0] *)
+Theorem C03_compare_congruence :
+  forall a b c x y, py_compare a b = Ok x -> py_compare b c = Ok y ->
+  exists z, py_compare a c = Ok z /\ (x = 0 -> z = y) /\ (y = 0 -> z = x).
+Proof.
+  intros a b c x y H1 H2. destruct (compare_trans_rel a b c x y H1 H2) as (z & H3 & T1 & T2 & _).
+  now exists z.
+Qed.
+
+(** exactly one of <, ==, > holds *)
+Theorem C03_trichotomy :
+  forall a b o, py_ops a b = Ok o ->
+  (b2n (o_lt o) + b2n (o_eq o) + b2n (o_gt o) = 1)%nat.
+Proof. exact trichotomy. Qed.
+
+(** the six operators tell one story, and the swapped operators the mirrored one *)
+Theorem C03_operators_consistent :
+  forall a b o, py_ops a b = Ok o ->
+  exists z, py_compare a b = Ok z /\ o = ops_of z
+    /\ o_le o = o_lt o || o_eq o /\ o_ge o = o_gt o || o_eq o /\ o_ne o = negb (o_eq o)
+    /\ o_ge o = negb (o_lt o) /\ o_le o = negb (o_gt o)
+    /\ py_ops b a = Ok (ops_of (- z))
+    /\ o_lt (ops_of (- z)) = o_gt o /\ o_gt (ops_of (- z)) = o_lt o
+    /\ o_eq (ops_of (- z)) = o_eq o.
+Proof. exact operators_consistent. Qed.
+
+(** 3. equal_iff_same_key / hash_respects_eq.  For live objects, comparing equal is
+       the same as having identical tuples handed to [hash()] (epoch number, trimmed
+       key of the upstream version, trimmed key of the revision); so equal versions
+       have equal hashes, and — conversely — the key is canonical. *)
+Theorem C03_equal_iff_same_key :
+  forall a b, inv a = true -> inv b = true ->
+  (py_compare a b = Ok 0 <-> hash_eq a b = true).
+Proof. exact equal_iff_same_key. Qed.
+
+Theorem C03_hash_respects_eq :
+  forall a b, inv a = true -> inv b = true ->
+  py_compare a b = Ok 0 -> hash_eq a b = true.
+Proof. exact hash_respects_eq. Qed.
+
+(** 4. The model meets the property exactly as the correspondence check evaluates it
+       ([holds] of Version/CompareCheck.v), on every pair and every triple of inputs
+       (valid or not, any code points). *)
+Theorem C03_model_pair_holds :
+  forall a b, holds (CPair a b (model_pair (dec a) (dec b))) = true.
+Proof. exact model_pair_holds. Qed.
+
+Theorem C03_model_triple_holds :
+  forall a b c,
+    holds (CTriple a b c (py_version_compare (dec a) (dec b)) (py_version_compare (dec b) (dec c))
+                         (py_version_compare (dec a) (dec c))) = true.
+Proof. exact model_triple_holds. Qed.
+
+(** 5. The machinery behind 1-3, stated on its own: on every pair of strings (any code
+       points) [_version_cmp_part] is the order [keys_cmp] on the keys; on strings of
+       non-NUL characters whose Unicode digit class is C's, dpkg's [verrevcmp]
+       terminates within its fuel with the same sign. *)
+Theorem C03_cmp_part_is_key_order :
+  forall a b, py_cmp_part a b = CompareKey.z_of_cmp (CompareKey.keys_cmp (CompareKey.pkey a) (CompareKey.pkey b)).
+Proof. exact CompareKey.py_cmp_part_key. Qed.
+
+Theorem C03_verrevcmp_is_key_order :
+  forall a b, forallb CompareDpkg.nice a = true -> forallb CompareDpkg.nice b = true ->
+  exists r, verrevcmp a b = Ok r
+    /\ Z.sgn r = CompareKey.z_of_cmp (CompareKey.keys_cmp (CompareKey.pkey a) (CompareKey.pkey b)).
+Proof. exact CompareDpkg.verrevcmp_key. Qed.
+
+(** Non-vacuity: valid strings with epoch, revision, '~', leading zeros and mixed runs
+    satisfy the hypotheses; two differently spelled equal versions; a strict chain. *)
+Example C03_nonvacuous :
+  let a := dec "0:1.0~rc1+b01-0" in
+  let b := dec "1.00~rc01+b1" in
+  let c := dec "1:0.9a-1" in
+  valid_spec a = true /\ valid_spec b = true /\ valid_spec c = true
+  /\ py_version_compare a b = Ok 0 /\ dpkg_compare a b = Some 0
+  /\ py_version_compare b c = Ok (-1) /\ py_version_compare a c = Ok (-1)
+  /\ dpkg_compare c a = Some 1
+  /\ match version_new (VStr a), version_new (VStr b) with
+     | Ok va, Ok vb =>
+         inv va = true /\ inv vb = true /\ epoch_int va = true
+         /\ py_compare va vb = Ok 0 /\ hash_eq va vb = true
+         /\ py_ops va vb = Ok (mkOps false true true false true false)
+     | _, _ => False
+     end.
+Proof. vm_compute. repeat split. Qed.
+
+Example C03_nonvacuous_nice :
+  forallb CompareDpkg.nice (dec "1.0~rc1+b01") = true
+  /\ verrevcmp (dec "1.0~rc1+b01") (dec "1.00~rc01+b1") = Ok 0
+  /\ verrevcmp (dec "1.0~rc1") (dec "1.0") = Ok (-1).
+Proof. vm_compute. repeat split. Qed.
+
+Print Assumptions C03_py_compare_is_dpkg.
+Print Assumptions C03_py_compare_is_dpkg_obj.
+Print Assumptions C03_compare_total.
+Print Assumptions C03_live_epoch_int.
+Print Assumptions C03_compare_refl.
+Print Assumptions C03_compare_antisym.
+Print Assumptions C03_compare_trans.
+Print Assumptions C03_compare_congruence.
+Print Assumptions C03_trichotomy.
+Print Assumptions C03_operators_consistent.
+Print Assumptions C03_equal_iff_same_key.
+Print Assumptions C03_hash_respects_eq.
+Print Assumptions C03_model_pair_holds.
+Print Assumptions C03_model_triple_holds.
+Print Assumptions C03_cmp_part_is_key_order.
+Print Assumptions C03_verrevcmp_is_key_order.
